@@ -53,7 +53,7 @@ ASSUMPTIONS = [
 ]
 BOUND = {
     "quick": "root of 2 items (ragged keys, one nested mutable object value); families of <= 4 lists; all event sequences "
-             "to depth 4; per member 12 simple derives + map (identity / rebuilding callback; its relation to the receiver is observed) + sample(1|2) x every RNG answer + semi/anti join x every "
+             "to depth 4; per member 12 simple derives + map (identity / rebuilding callback), group_by, aggregate (plain / with a summary function that edits its group) and full_join - methods the statement does not name, whose relation to the receiver is observed - + sample(1|2) x every RNG answer + semi/anti join x every "
              "other member and a literal as right-hand list; 9 edits + inner/left join x the same right-hand "
              "lists; deepcopy; 2 kinds of use",
     "thorough": "same event alphabet; families of <= 5 lists; all event sequences to depth 6",
@@ -160,6 +160,10 @@ CALL = {
     # it, returning another list that holds the receiver's item objects makes the receiver an ancestor of that list
     "group_by": lambda x, r, ev: x.group_by("k"),
     # full_join is in neither list of the statement; same observational treatment (with a literal and an empty right list)
+    # aggregate (after group_by) builds new items: nothing was edited, so nobody may start reporting itself obsolete
+    "aggregate": lambda x, r, ev: x.group_by("k").aggregate(n=len),
+    # ... also when a summary function edits the group it is handed (the group is its own list of its own items)
+    "aggregate_editing": lambda x, r, ev: x.group_by("k").aggregate(n=lambda g: len(g.fill_missing_keys(z=0).modify(a=lambda it: 9))),
     "full_join_lit": lambda x, r, ev: x.full_join(make_lit(), "k"),
     "full_join_empty": lambda x, r, ev: x.full_join(di.ListOfDicts([]), "k"),
     # in-place (statement: modify, modify_if, rename, select, unselect, fill_missing_keys, inner_join, left_join)
@@ -182,7 +186,7 @@ CALL = {
 SIMPLE_D = ("filter_fn", "filter_kv", "sort", "unique", "head", "head0", "tail", "slice", "copy", "reverse",
             "chain_filter_sort", "chain_slice_reverse")
 SIMPLE_E = ("modify", "modify_if", "modify_if_nested", "rename", "select", "unselect", "fill", "fill_kv")
-MAPS = ("map_identity", "map_tag", "group_by", "full_join_lit", "full_join_empty")
+MAPS = ("map_identity", "map_tag", "group_by", "aggregate", "aggregate_editing", "full_join_lit", "full_join_empty")
 USES = ("pluck", "to_string")
 # which method of the statement each op instantiates (for the reference model and reports)
 METHOD = {"filter_fn": "filter", "filter_kv": "filter", "modify_if_nested": "modify_if",
@@ -200,7 +204,8 @@ SOURCE = {
     "copy": "{x}.copy()", "reverse": "{x}.reverse()",
     "chain_filter_sort": "{x}.filter(lambda it: True).sort(k=-1)", "chain_slice_reverse": "{x}[0:].reverse()", "sample": "{x}.sample({n})  # random.sample answers {answer}",
     "semi_join": "{x}.semi_join({r}, 'k')", "anti_join": "{x}.anti_join({r}, 'k')",
-    "map_identity": "{x}.map(lambda it: it)", "map_tag": "{x}.map(lambda it: {{**it, 't': 1}})", "group_by": "{x}.group_by('k')",
+    "map_identity": "{x}.map(lambda it: it)", "map_tag": "{x}.map(lambda it: {{**it, 't': 1}})", "group_by": "{x}.group_by('k')", "aggregate": "{x}.group_by('k').aggregate(n=len)",
+    "aggregate_editing": "{x}.group_by('k').aggregate(n=lambda g: len(g.fill_missing_keys(z=0).modify(a=lambda it: 9)))",
     "full_join_lit": "{x}.full_join(ListOfDicts(" + LIT.replace("{", "{{").replace("}", "}}") + "), 'k')", "full_join_empty": "{x}.full_join(ListOfDicts([]), 'k')",
     "modify": "{x}.modify(a=lambda it: 5)", "modify_if": "{x}.modify_if(lambda it: it['k'] == 1, a=lambda it: 6)",
     "modify_if_nested": "{x}.modify_if(lambda it: isinstance(it.get('n'), Box) and len(it['n'].v) < 2, "
